@@ -23,6 +23,11 @@ func sentinelSlice(data []byte, lead, spare int) (view, whole []byte) {
 }
 
 func suitePurity(c *Ctx) {
+	// the property over programs: the model side evaluates the points-to analysis on the slice-effect
+	// IR regenerated from the current source and names the offending statement
+	for _, api := range schemeAPIs {
+		c.Op("sliceeffects "+api.name, "pure")
+	}
 	lensFor := func(name string) []int {
 		switch name {
 		case "bcrypt":
